@@ -244,6 +244,10 @@ func runC19(r *Run) {
 
 	runTkt := func(b []byte, kind string) {
 		o := decDeserialize(b)
+		if o.Class == "skipped" {
+			r.Count("skipped/alloc-bomb-on-uncapped-tree")
+			return
+		}
 		r.Emit("C19 tkt "+decHex(b), o.String())
 		r.Evaluations++
 		r.Distinct("tkt" + string(b))
@@ -257,6 +261,10 @@ func runC19(r *Run) {
 	}
 	runStr := func(s string, kind string) {
 		o := decDecodeString(s)
+		if o.Class == "skipped" {
+			r.Count("skipped/alloc-bomb-on-uncapped-tree")
+			return
+		}
 		r.Emit("C19 str "+decHex([]byte(s)), o.String())
 		r.Evaluations++
 		r.Distinct("str" + s)
